@@ -654,6 +654,257 @@ class _ApplyGetters(ast.NodeTransformer):
         return new
 
 
+def _wrapping_decorators(tree) -> int:
+    """
+    a private module level decorator of the form
+
+        def deco(method):
+            @wraps(method)
+            def wrapper(self, *args, **kwargs):
+                PRE; method(self, *args, **kwargs); POST
+            return wrapper
+
+    applied to a plain method whose body never returns: the method is analysed as
+    ``PRE; BODY; POST`` (with the wrapper's ``self`` renamed), which is what calling it does
+    """
+    import copy
+    if not isinstance(tree, ast.Module):
+        return 0
+    decorators = {}
+    for stmt in tree.body:
+        if not (isinstance(stmt, ast.FunctionDef) and not stmt.decorator_list
+                and len(stmt.args.args) == 1 and not stmt.args.vararg and not stmt.args.kwarg
+                and not stmt.args.kwonlyargs and not stmt.args.posonlyargs):
+            continue
+        param = stmt.args.args[0].arg
+        body = [s for s in stmt.body
+                if not (isinstance(s, ast.Expr) and isinstance(s.value, ast.Constant))]
+        if len(body) != 2 or not isinstance(body[0], ast.FunctionDef) or not (
+                isinstance(body[1], ast.Return) and isinstance(body[1].value, ast.Name)
+                and body[1].value.id == body[0].name):
+            continue
+        wrapper = body[0]
+        wargs = wrapper.args
+        if len(wargs.args) != 1 or wargs.vararg is None or wargs.kwarg is None or \
+                wargs.kwonlyargs or wargs.posonlyargs or wargs.defaults:
+            continue
+        if any(not (isinstance(d, ast.Call) and ast.unparse(d.func).split('.')[-1] == 'wraps'
+                    and [ast.unparse(a) for a in d.args] == [param] and not d.keywords)
+               for d in wrapper.decorator_list):
+            continue
+        me, star, kw = wargs.args[0].arg, wargs.vararg.arg, wargs.kwarg.arg
+        wbody = [s for s in wrapper.body
+                 if not (isinstance(s, ast.Expr) and isinstance(s.value, ast.Constant))]
+        want = '%s(%s, *%s, **%s)' % (param, me, star, kw)
+        at = [i for i, s in enumerate(wbody) if isinstance(s, ast.Expr)
+              and ast.unparse(s.value) == want]
+        if len(at) != 1:
+            continue
+        rest = wbody[:at[0]] + wbody[at[0] + 1:]
+        if any(isinstance(n, ast.Name) and n.id in (param, star, kw)
+               for s in rest for n in ast.walk(s)) or any(
+                isinstance(n, (ast.Return, ast.Yield, ast.YieldFrom, ast.Await, ast.Global,
+                               ast.Nonlocal, ast.FunctionDef, ast.AsyncFunctionDef,
+                               ast.Lambda, ast.ClassDef))
+                for s in rest for n in ast.walk(s)):
+            continue
+        decorators[stmt.name] = (me, wbody[:at[0]], wbody[at[0] + 1:])
+    if not decorators:
+        return 0
+    # the decorator names are bound once (by their definition)
+    for node in ast.walk(tree):
+        if isinstance(node, ast.Name) and isinstance(node.ctx, (ast.Store, ast.Del)) and \
+                node.id in decorators:
+            decorators.pop(node.id)
+    count = 0
+    for node in ast.walk(tree):
+        if not (isinstance(node, ast.FunctionDef) and len(node.decorator_list) == 1
+                and isinstance(node.decorator_list[0], ast.Name)
+                and node.decorator_list[0].id in decorators and node.args.args):
+            continue
+        inner = [n for s in node.body for n in ast.walk(s)]
+        if any(isinstance(n, (ast.Return, ast.Yield, ast.YieldFrom)) for n in inner):
+            continue
+        me, pre, post = decorators[node.decorator_list[0].id]
+        own = node.args.args[0].arg
+        taken = {n.id for n in inner if isinstance(n, ast.Name)} | {
+            a.arg for a in node.args.args + node.args.kwonlyargs}
+        extra = {n.id for s in pre + post for n in ast.walk(s)
+                 if isinstance(n, ast.Name) and isinstance(n.ctx, ast.Store)}
+        if extra & taken:
+            continue
+
+        class Rename(ast.NodeTransformer):
+            def visit_Name(self, name):
+                if name.id == me:
+                    return ast.copy_location(ast.Name(id=own, ctx=name.ctx), name)
+                return name
+        node.body = [Rename().visit(copy.deepcopy(s)) for s in pre] + node.body + \
+            [Rename().visit(copy.deepcopy(s)) for s in post]
+        node.decorator_list = []
+        count += 1
+    return count
+
+
+def _statement_spellings(tree) -> int:
+    """two spellings of container statements as the plainer one:
+      X.pop(k)                 (result discarded)   ->  del X[k]
+      t = D.setdefault(k, E)   with ``k = object()`` bound once in the function just for
+                               this (a fresh key is never present)  ->  D[k] = t = E
+    """
+    count = 0
+    for fn in ast.walk(tree):
+        if not isinstance(fn, (ast.FunctionDef, ast.AsyncFunctionDef)):
+            continue
+        names = {}
+        fresh = set()
+        for node in ast.walk(fn):
+            if isinstance(node, ast.Name) and isinstance(node.ctx, (ast.Store, ast.Del)):
+                names[node.id] = names.get(node.id, 0) + 1
+        for node in ast.walk(fn):
+            if isinstance(node, ast.Assign) and len(node.targets) == 1 and isinstance(
+                    node.targets[0], ast.Name) and names.get(node.targets[0].id) == 1 and \
+                    isinstance(node.value, ast.Call) and isinstance(
+                        node.value.func, ast.Name) and node.value.func.id == 'object' and \
+                    not node.value.args and not node.value.keywords and \
+                    names.get('object', 0) == 0:
+                fresh.add(node.targets[0].id)
+        for holder in ast.walk(fn):
+            for field in ('body', 'orelse', 'finalbody'):
+                body = getattr(holder, field, None)
+                if not isinstance(body, list) or not body or \
+                        not isinstance(body[0], ast.stmt):
+                    continue
+                for index, stmt in enumerate(body):
+                    if isinstance(stmt, ast.Expr) and isinstance(stmt.value, ast.Call) and \
+                            isinstance(stmt.value.func, ast.Attribute) and \
+                            stmt.value.func.attr == 'pop' and len(stmt.value.args) == 1 \
+                            and not stmt.value.keywords and isinstance(
+                                stmt.value.args[0], ast.Name) and isinstance(
+                                stmt.value.func.value, (ast.Name, ast.Attribute)):
+                        new = ast.Delete(targets=[ast.Subscript(
+                            value=stmt.value.func.value, slice=stmt.value.args[0],
+                            ctx=ast.Del())])
+                        body[index] = ast.fix_missing_locations(ast.copy_location(new, stmt))
+                        count += 1
+                    elif isinstance(stmt, ast.Assign) and len(stmt.targets) == 1 and \
+                            isinstance(stmt.targets[0], ast.Name) and isinstance(
+                                stmt.value, ast.Call) and isinstance(
+                                stmt.value.func, ast.Attribute) and \
+                            stmt.value.func.attr == 'setdefault' and \
+                            len(stmt.value.args) == 2 and not stmt.value.keywords and \
+                            isinstance(stmt.value.args[0], ast.Name) and \
+                            stmt.value.args[0].id in fresh and isinstance(
+                                stmt.value.func.value, (ast.Name, ast.Attribute)):
+                        key = stmt.value.args[0]
+                        uses = [n for n in ast.walk(fn) if isinstance(n, ast.Call)
+                                and isinstance(n.func, ast.Attribute)
+                                and n.func.attr == 'setdefault' and n.args
+                                and isinstance(n.args[0], ast.Name) and n.args[0].id == key.id]
+                        stored = [n for n in ast.walk(fn) if isinstance(n, ast.Subscript)
+                                  and isinstance(n.ctx, ast.Store) and isinstance(
+                                      n.slice, ast.Name) and n.slice.id == key.id]
+                        if len(uses) != 1 or stored:
+                            continue
+                        new = ast.Assign(targets=[
+                            ast.Subscript(value=stmt.value.func.value, slice=key,
+                                          ctx=ast.Store()),
+                            ast.Name(id=stmt.targets[0].id, ctx=ast.Store())],
+                            value=stmt.value.args[1],
+                            type_comment=getattr(stmt, 'type_comment', None))
+                        body[index] = ast.fix_missing_locations(ast.copy_location(new, stmt))
+                        count += 1
+    return count
+
+
+def _local_getters(tree) -> int:
+    """``call = methodcaller('append', item)`` bound once in a function to an accessor of
+    the operator module over constants and names that are bound once: ``call(x)`` in that
+    function is ``x.append(item)``"""
+    if not isinstance(tree, ast.Module):
+        return 0
+    factories, modules = {}, set()
+    for node in ast.walk(tree):
+        if isinstance(node, ast.ImportFrom) and node.module == 'operator' and not node.level:
+            for alias in node.names:
+                if alias.name in _GETTERS:
+                    factories[alias.asname or alias.name] = alias.name
+        elif isinstance(node, ast.Import):
+            for alias in node.names:
+                if alias.name == 'operator':
+                    modules.add(alias.asname or 'operator')
+    if not factories and not modules:
+        return 0
+    count = 0
+    for fn in ast.walk(tree):
+        if not isinstance(fn, (ast.FunctionDef, ast.AsyncFunctionDef)):
+            continue
+        stores, nested = {}, []
+        todo = list(fn.body)
+        own = []
+        while todo:
+            node = todo.pop()
+            if isinstance(node, (ast.FunctionDef, ast.AsyncFunctionDef, ast.ClassDef,
+                                 ast.Lambda)):
+                nested.append(node)
+                if not isinstance(node, ast.Lambda):
+                    stores[node.name] = stores.get(node.name, 0) + 2
+                continue
+            own.append(node)
+            todo.extend(ast.iter_child_nodes(node))
+        for node in own:
+            if isinstance(node, ast.Name) and isinstance(node.ctx, (ast.Store, ast.Del)):
+                stores[node.id] = stores.get(node.id, 0) + 1
+        args = fn.args
+        for a in args.posonlyargs + args.args + args.kwonlyargs + [
+                x for x in (args.vararg, args.kwarg) if x is not None]:
+            stores[a.arg] = stores.get(a.arg, 0) + 1
+        if any(isinstance(n, (ast.Global, ast.Nonlocal)) for n in own):
+            continue
+        found = {}
+        for node in own:
+            if not (isinstance(node, ast.Assign) and len(node.targets) == 1
+                    and isinstance(node.targets[0], ast.Name)
+                    and isinstance(node.value, ast.Call) and node in fn.body):
+                continue
+            name, call = node.targets[0].id, node.value
+            kind = None
+            if isinstance(call.func, ast.Name) and stores.get(call.func.id, 0) == 0:
+                kind = factories.get(call.func.id)
+            elif isinstance(call.func, ast.Attribute) and isinstance(
+                    call.func.value, ast.Name) and call.func.value.id in modules and \
+                    call.func.attr in _GETTERS and stores.get(call.func.value.id, 0) == 0:
+                kind = call.func.attr
+            if kind != 'methodcaller' or stores.get(name) != 1 or not call.args or any(
+                    isinstance(a, ast.Starred) for a in call.args):
+                continue
+            if not (isinstance(call.args[0], ast.Constant) and isinstance(
+                    call.args[0].value, str) and call.args[0].value.isidentifier()):
+                continue
+            operands = list(call.args[1:]) + [kw.value for kw in call.keywords]
+            if any(kw.arg is None for kw in call.keywords) or not all(
+                    isinstance(a, ast.Constant) or (isinstance(a, ast.Name)
+                                                    and stores.get(a.id, 0) <= 1)
+                    for a in operands):
+                continue
+            # used only by being called with one argument, outside nested scopes
+            uses = [n for n in own if isinstance(n, ast.Name) and n.id == name
+                    and isinstance(n.ctx, ast.Load)]
+            calls = [n for n in own if isinstance(n, ast.Call) and isinstance(n.func, ast.Name)
+                     and n.func.id == name and len(n.args) == 1 and not n.keywords
+                     and not isinstance(n.args[0], ast.Starred)]
+            if len(uses) != len(calls) or any(
+                    isinstance(x, ast.Name) and x.id == name
+                    for sub in nested for x in ast.walk(sub)):
+                continue
+            found[name] = (kind, call)
+        if found:
+            applier = _ApplyGetters(found)
+            fn.body = [applier.visit(stmt) for stmt in fn.body]
+            count += applier.count
+    return count
+
+
 #: methods whose result the interpreter only takes the truth of
 _TRUTH_COERCED = ('__subclasscheck__', '__instancecheck__', '__contains__')
 
@@ -719,6 +970,9 @@ def desugar(tree):
         applier = _ApplyGetters(getters)
         applier.visit(tree)
         count += applier.count
+    count += _wrapping_decorators(tree)
+    count += _local_getters(tree)
+    count += _statement_spellings(tree)
     count += _fuse_generator_loops(tree)
     count += _fuse_iterator_loops(tree)
     count += _close_over_arguments(tree)
